@@ -31,6 +31,7 @@ type sEntry struct {
 const (
 	clValid    = "valid"
 	clValid2   = "valid2"
+	clValid3   = "valid-respelled-key" // the same setting as valid2 under another spelling of its key (storagesc trims blanks)
 	clImmut    = "immutable"
 	clUnknown  = "unknown"
 	clUnparse  = "unparsable"
@@ -70,6 +71,7 @@ var govFuncs = map[string][]govFunc{
 			{clUnparse, "blobber_slash", "abc"},
 			{clInvalid, "cancellation_charge", "2"},
 			{clInvalid2, "max_write_price", "0.000001"}, // below min_write_price
+			{clValid3, " max_delegates", "151"},
 		}},
 	},
 	"faucetsc": {
@@ -347,7 +349,7 @@ func govMonitor(s *chainsim.Step, v func(key, what string)) {
 	}
 	kind := "all-entries-valid"
 	for _, e := range gc.Entries {
-		if e.Class != clValid && e.Class != clValid2 {
+		if e.Class != clValid && e.Class != clValid2 && e.Class != clValid3 {
 			kind = "with-bad-entry"
 		}
 	}
@@ -390,11 +392,12 @@ func orderCheck(run *ev.Run, w *world.World, acts []chainsim.Action) {
 		}
 		bad := 0
 		for _, e := range gc.Entries {
-			if e.Class != clValid && e.Class != clValid2 {
+			if e.Class != clValid && e.Class != clValid2 && e.Class != clValid3 {
 				bad++
 			}
 		}
-		if bad < 2 || gc.Caller != "owner" {
+		respelled := strings.Contains(classList(gc.Entries), clValid2) && strings.Contains(classList(gc.Entries), clValid3)
+		if (bad < 2 && !respelled) || gc.Caller != "owner" {
 			continue
 		}
 		cases++
